@@ -125,11 +125,11 @@ HISTORIES = [
 ]
 
 
-def _case(kinds, edges, fixed, ff, max_iter):
+def _case(kinds, edges, fixed, ff, max_iter, raw_quat=()):
     def fn(P, g):
         np = P.np
         env = install_stubs(P, g, solver=contract_solver(P) if P.symbolic else None)
-        graph, verts, eobjs, ids = structure_graph(P, g, kinds, edges, fixed, symbolic_ids=False, epoch_chi2=True)
+        graph, verts, eobjs, ids = structure_graph(P, g, kinds, edges, fixed, symbolic_ids=False, epoch_chi2=True, raw_quat=raw_quat)
         eff = set(fixed) | ({0} if ff else set())
         init = [v.pose.to_array() for v in verts]
         flags = [v.fixed for v in verts]
@@ -202,4 +202,7 @@ def cases(tier):
     for s in SE3_STRUCTS:
         for mi in (1,) if tier == "quick" else (1, 2):
             out.append(Case(_name(s, mi), _case(*s, mi), timeout=10, old_timeout=20, validate=1, feas_timeout_ms=1500))
+    # fixed SE(3) vertices whose stored quaternion is NOT of unit length (and may have w < 0): still bit-for-bit unchanged
+    for s in [(["SE3", "R3"], [(0, 1)], set(), True), (["R3", "SE3"], [(1, 0)], {1}, False)]:
+        out.append(Case("rawquat_" + _name(s, 1), _case(*s, 1, raw_quat=(0, 1)), timeout=10, old_timeout=20, validate=1, feas_timeout_ms=1500))
     return out
